@@ -591,6 +591,10 @@ class TailInterp:
             d = dotted(e.func) or ''
             if d == 'self._imethodcall':
                 return AV('result')
+            if isinstance(e.func, ast.Attribute) and not d:
+                # a method called on a reply element reached through a
+                # subscript (`x[2].strip()`): an attribute use
+                self.ev(e.func, env, func)
             args = [self.ev(a, env, func) or self.types_av(a, env)
                     for a in e.args]
             kwargs = {}
